@@ -47,6 +47,8 @@ def gen_paths(rng, tier):
             npts=(7 if tier == 'quick' else rng.choice([7, 13, 25])),
             jitter=rng.random() < 0.5,
             default_spline=(i % 5 == 0),
+            # one penalty of a model with several penalised terms swept to 1e8 / 1e9 while the others stay at ordinary values
+            multi_sweep=(i % 5 == 1),
         ))
     return paths
 
@@ -84,9 +86,9 @@ def _grid(case, rs):
     if case['jitter']:
         e = np.sort(np.clip(e + rs.uniform(-0.4, 0.4, size=k), -6, 6))
         e[0], e[-1] = -6.0, 6.0
-    # 0, the 12 decades 1e-6 … 1e6, and one point far beyond (1e9): judged like any other point, the accuracy model
+    # 0, the 12 decades 1e-6 … 1e6, and two points far beyond (1e8, 1e9): judged like any other point, the accuracy model
     # of the solve decides what is too ill-conditioned to judge
-    return [0.0] + [float(10 ** v) for v in e] + [1e9]
+    return [0.0] + [float(10 ** v) for v in e] + [1e8, 1e9]
 
 
 def _problem(case, pygam):
@@ -100,6 +102,20 @@ def _problem(case, pygam):
                                  max_terms=1, tensor_prob=0.0)
         tl = TermList(SplineTerm(0, n_splines=rng.choice([6, 10, 20]), lam=0.6), Intercept())
         tl.compile(pr.X)
+    elif case.get('multi_sweep'):
+        from pygam.terms import FactorTerm
+        pr = termgen.gen_program(rng, pygam, n_rows=260, n_query=8, allow_constraints=False, allow_periodic_penalty=False,
+                                 max_terms=1, tensor_prob=0.0)
+        ordinary = [0.6, 1.0, 0.015625, 2.5, 10.0]
+        # columns of the generated data: 0 is numeric, 1 categorical; a second numeric column when there is one
+        nums = [j for j in range(pr.X.shape[1]) if j != 1 and len(np.unique(pr.X[:, j])) > 20]
+        terms = [SplineTerm(0, n_splines=rng.choice([8, 12, 20]), lam=rng.choice(ordinary))]
+        if len(nums) > 1:
+            terms.append(SplineTerm(nums[1], n_splines=rng.choice([6, 10, 20]), lam=rng.choice(ordinary)))
+        if len(terms) < 2 or rng.random() < 0.5:
+            terms.append(FactorTerm(1, lam=rng.choice(ordinary)))
+        tl = TermList(*terms, Intercept())
+        tl.compile(pr.X)
     else:
         pr = termgen.gen_program(rng, pygam, n_rows=260, n_query=8, allow_constraints=False, allow_periodic_penalty=False,
                                  max_terms=case['max_terms'], tensor_prob=0.25)
@@ -109,7 +125,7 @@ def _problem(case, pygam):
     if len(set(sigs)) != len(sigs):
         raise ValueError('two terms differ at most in lam')
     m = int(tl.n_coefs)
-    n = {'m+1': m + 1, 'small': 12, 'mid': 60, 'large': 200}[case['n_mode']]
+    n = {'m+1': m + 1, 'small': 12, 'mid': 60, 'large': 200}[case['n_mode'] if not case.get('multi_sweep') else ('large' if case['n_mode'] != 'mid' else 'mid')]
     n = max(min(n, 260), 6)
     X = pr.X[:n].copy()
     eta = np.zeros(n)
@@ -140,7 +156,7 @@ def _problem(case, pygam):
     base = {}
     for path, k_, lam, pen in slots:
         base[(path, k_)] = lam
-    if case['kind'] == 'single':
+    if case['kind'] == 'single' or case.get('multi_sweep'):
         real = [sl for sl in slots if sl[3] not in (None, 'none')]
         pick = rng.choice(real) if (real and rng.random() < 0.85) else rng.choice(slots)
         unit = {key: 0.0 for key in base}
@@ -200,18 +216,6 @@ def _fit_at(prob, case, pygam, lam):
                 l2=(l2_before, getattr(gam, '_constraint_l2', None)))
 
 
-def _closed_form(B, A, wv, y):
-    """penalised WLS by lstsq on the augmented system [sqrt(W) B; E] with E'E = A (eigen-decomposition): independent of pyGAM"""
-    lamA, V = np.linalg.eigh((A + A.T) / 2)
-    E = (np.sqrt(np.clip(lamA, 0, None))[:, None]) * V.T
-    sw = np.sqrt(wv)
-    M = np.vstack([sw[:, None] * B, E])
-    rhs = np.concatenate([sw * y, np.zeros(B.shape[1])])
-    beta = np.linalg.lstsq(M, rhs, rcond=None)[0]
-    sv = np.linalg.svd(M, compute_uv=False)
-    return beta, float(sv.max() / max(sv.min(), 1e-300))
-
-
 def _oracle(B, R, Pv, lam, wv, y):
     """penalised WLS with penalty R + lam Pv by a thin QR of the stacked system M = [sqrt(W)B; E_R; sqrt(lam) E_P]
     (R + lam Pv, whose small eigenvalues drown in the rounding of the large ones, is never formed; no rank truncation).
@@ -247,16 +251,6 @@ def _split_fit(B, R, Pv, lam, wv, y):
     M = np.vstack([np.sqrt(wv)[:, None] * B, Er, Ep])
     rhs = np.concatenate([np.sqrt(wv) * y, np.zeros(2 * B.shape[1])])
     return np.linalg.lstsq(M, rhs, rcond=None)[0]
-
-
-def _edof_qr(B, A, wv):
-    """trace of the hat matrix = squared Frobenius norm of the data block of the orthogonal factor of [sqrt(W)B; E]
-    (thin QR; independent of pyGAM's QR + SVD route)"""
-    lamA, V = np.linalg.eigh((A + A.T) / 2)
-    E = (np.sqrt(np.clip(lamA, 0, None))[:, None]) * V.T
-    M = np.vstack([np.sqrt(wv)[:, None] * B, E])
-    Q, _ = np.linalg.qr(M)
-    return float(np.sum(Q[:B.shape[0]] ** 2))
 
 
 def _null_fit(B, R, Pv, wv, y):
@@ -320,7 +314,7 @@ def _worker_(case):
     far_status = 'ok'
     for lam in prob['grid']:
         f = _fit_at(prob, case, pygam, lam)
-        if f['status'] in ('ValueError', 'OptimizationError') and lam == 1e9 and pts:
+        if f['status'] in ('ValueError', 'OptimizationError') and lam >= 1e8 and pts:
             far_status = f['status']          # the far point may legitimately be refused; the 12 decades may not
             continue
         if f['status'] != 'ok':
@@ -338,14 +332,17 @@ def _worker_(case):
         N = G + A
         ev = np.linalg.eigvalsh((N + N.T) / 2)
         cond = float(ev.max() / max(ev.min(), 1e-300))
-        bcf, condM = _closed_form(B, A, wv, y)
-        mucf = B @ bcf
         pos = wv > 0          # rows with zero weight are extrapolations: not protected by the stability of the LS fit
         sc = 1.0 + np.abs(mu[pos]).max()
+        try:
+            orc = _oracle(B, R, Pv, lam, wv, y)
+            mucf, condM, edof_np = B @ orc['beta'], orc['condM'], orc['edof']
+            acc = _acc(condM, float(np.linalg.norm(A, 2)), float(np.linalg.norm(beta)), float(np.abs(mu[pos]).max()), orc['K'], float(wv[pos].min()))
+        except np.linalg.LinAlgError:
+            mucf, condM, edof_np, acc = mu, float('inf'), f['edof'], float('inf')        # NumPy oracle unusable: point not judged
         grad = B.T @ (wv * (y - mu)) - A @ beta
         rhs = B.T @ (wv * y)
-        acc = _acc(condM, float(np.linalg.norm(A, 2)), float(np.linalg.norm(beta)), float(np.abs(mu[wv > 0]).max()))
-        pts.append(dict(lam=lam, conv=f['conv'], fallback=f['fallback'], l2=f['l2'], acc=acc, edof=f['edof'], edof_np=_edof_qr(B, A, wv), rss=rss, J=J, Rq=Rq, cond=cond, condM=condM,
+        pts.append(dict(lam=lam, conv=f['conv'], fallback=f['fallback'], l2=f['l2'], acc=acc, edof=f['edof'], edof_np=edof_np, rss=rss, J=J, Rq=Rq, cond=cond, condM=condM,
                         d_cf=float(np.abs(mu - mucf)[pos].max() / sc), d_lin=float(np.abs(f['P'] - (Pfix + lam * Pv)).max() / (1e-300 + np.abs(f['P']).max() + np.abs(Pfix).max())),
                         d_B=float(np.abs(B - B0).max()), d_mu=float(np.abs(B @ beta - mu).max() / sc),
                         be=float(np.linalg.norm(grad) / (np.linalg.norm(N, 2) * np.linalg.norm(beta) + np.linalg.norm(rhs) + 1e-300)),
@@ -365,8 +362,12 @@ def _worker_(case):
         lim = None
         for lam_big in (1e10, 1e9, 1e8, 1e7, 1e6, 1e5, 1e4, 1e3):
             Al = R + lam_big * Pv
-            bcf, condM = _closed_form(B0, Al, wv, y)
-            acc = _acc(condM, float(np.linalg.norm(Al, 2)), float(np.linalg.norm(bcf)), float(np.abs((B0 @ bcf)[wv > 0]).max()))
+            try:
+                orc = _oracle(B0, R, Pv, lam_big, wv, y)
+            except np.linalg.LinAlgError:
+                continue
+            bcf = orc['beta']
+            acc = _acc(orc['condM'], float(np.linalg.norm(Al, 2)), float(np.linalg.norm(bcf)), float(np.abs((B0 @ bcf)[wv > 0]).max()), orc['K'], float(wv[wv > 0].min()))
             if acc > 1e-4:
                 continue
             f = _fit_at(prob, case, pygam, lam_big)
@@ -425,14 +426,16 @@ def _worker_(case):
 # ---------------------------------------------------------------------------------------------------------
 # judging
 # ---------------------------------------------------------------------------------------------------------
-def _acc(condM, normA, normb, mumax):
+def _acc(condM, normA, normb, mumax, K, wmin):
     """relative accuracy to which the fitted values (and what is computed from them) of one fit can be trusted:
     (i) the least-squares solve on M = [sqrt(W)B; E]: eps cond(M);
-    (ii) the Cholesky factor E of A = S + P carries an error ~ eps |A|, a perturbation of the penalty that moves the fitted
-        values by at most eps |A| |beta| max_v |Bv| / (|Bv|² + v'Av) <= eps |A| |beta| / (2 eps^(1/4))  (v'Av >= sqrt(eps));
-        measured on an exact rational reference: 8e-5 where this bound gives 2e-5 … 1e-4.
+    (ii) the factor E of A = S + P (Cholesky, or the eigen-factor used when Cholesky breaks down) carries an error
+        |dA| ~ eps |A|, a perturbation of the penalty that moves the weighted fitted values by at most K |dA| |beta| with
+        K = |sqrt(W) B N^-1|_2 (computed by the NumPy oracle; K <= 1 / (2 eps^(1/4)) because v'Av >= sqrt(eps)).
+    Clean tree (1200 paths, lam = 1 … 1e10): every judged distance from the oracle <= 0.21 x max(1e-7, this).
     Floor 1e-9 as in DESIGN 3.4."""
-    return max(1e-9, 10 * EPS * condM, 10 * EPS * normA * normb / (2 * EPS ** 0.25 * (1 + mumax)))
+    ii = 10 * EPS * normA * normb / (1 + mumax) * min(K / np.sqrt(wmin), 1 / (2 * EPS ** 0.25))
+    return max(1e-9, 10 * EPS * condM, ii)
 
 
 def _tol(p, q):
@@ -559,7 +562,7 @@ def run(ctx):
         case = r['case']
         sig = dict(path=case)
         ctx.count('class', case['cls'])
-        ctx.count('varied', case['kind'])
+        ctx.count('varied', 'single (multi-term sweep)' if case.get('multi_sweep') else case['kind'])
         if r['status'] != 'ok':
             ctx.count('path status', r['status'])
             if r['status'] not in ('ValueError', 'generator-rejected', 'nonfinite-coef', 'OptimizationError', 'oracle-linalg-error'):
@@ -568,10 +571,10 @@ def run(ctx):
                          expected='a fit or a ValueError', oracle='fit must not raise an unrelated exception')
             continue
         pts = r['pts']
-        ctx.count('far point lam = 1e9', r['far_status'] if r['far_status'] != 'ok' else ('fitted' if pts[-1]['lam'] == 1e9 else 'absent'))
-        if pts[-1]['lam'] == 1e9 and not pts[-1]['conv'] and all(p['conv'] for p in pts[:-1]):
+        ctx.count('far points lam = 1e8, 1e9', r['far_status'] if r['far_status'] != 'ok' else 'fitted')
+        while len(pts) > 2 and pts[-1]['lam'] >= 1e8 and not pts[-1]['conv'] and all(p['conv'] for p in pts if p['lam'] < 1e8):
             pts = r['pts'] = pts[:-1]
-            ctx.count('far point lam = 1e9', 'not converged (dropped)')
+            ctx.count('far points lam = 1e8, 1e9', 'one not converged (dropped)')
         if not all(p['conv'] for p in pts):
             ctx.count('path status', 'a fit did not converge')
             continue
@@ -605,7 +608,7 @@ def run(ctx):
             if f2:
                 ctx.fail(st_mono, dict(kind='monotone', cls=case['cls'], varied=case['kind']), dict(path=case, n=r['n'], m=r['m'], varied=r['varied'], desc=r['desc']),
                          observed=f2[:4], expected='edof non-increasing, RSS + fixed penalties non-decreasing, penalty value non-increasing along increasing lam',
-                         oracle='sequence of real fits (tol 1e-10), tolerance 10 x accuracy model (eps cond[sqrt(W)B; E], eps |A||beta| / 2 eps^(1/4))')
+                         oracle='sequence of real fits (tol 1e-10), tolerance 10 x accuracy model (eps cond[sqrt(W)B; E], eps |A||beta| |sqrt(W)B N^-1|)')
             else:
                 ctx.count('not reproduced on re-execution', 'monotone')
         # ---- closed form and linearity of the penalty
